@@ -294,11 +294,11 @@ const STRS: [&str; 12] = [
 ];
 const ARRS: [&str; 8] = ["[1, 2, 3]", "[]", "[1, [2, [3, [4]]]]", "[\"b\", \"a\", \"é\"]", "[1, , 3]", "[{ v: 1 }, { v: 2 }]", "Array.from(\"日本\")", "[0, -0, NaN, undefined, null]"];
 const LONGS: [&str; 5] = [
-    "Array.from({ length: 21 }, (_: any, i: number) => (i * 7) % 11)",
-    "Array.from({ length: 33 }, (_: any, i: number) => (i * 13) % 17)",
-    "Array.from({ length: 64 }, (_: any, i: number) => 64 - i)",
-    "Array.from({ length: 100 }, (_: any, i: number) => (i * 37) % 101)",
-    "Array.from({ length: 40 }, (_: any, i: number) => ({ v: (i * 5) % 7 }))",
+    "\"x\".repeat(21).split(\"\").map((_: any, i: number) => (i * 7) % 11)",
+    "\"x\".repeat(33).split(\"\").map((_: any, i: number) => (i * 13) % 17)",
+    "\"x\".repeat(64).split(\"\").map((_: any, i: number) => 64 - i)",
+    "\"x\".repeat(100).split(\"\").map((_: any, i: number) => (i * 37) % 101)",
+    "\"x\".repeat(40).split(\"\").map((_: any, i: number) => ({ v: (i * 5) % 7 }))",
 ];
 const CMPS: [&str; 12] = [
     "() => 1", "() => -1", "(a: any, b: any) => (((Number(a) || 0) * 7 + (Number(b) || 0) * 13) % 5) - 2", "() => NaN", "(a: any, b: any) => a < b ? 1 : 1",
@@ -377,6 +377,9 @@ const NATIVE_CALLS: &[&str] = &[
     "((a: any, b: any, c: any) => { try { a.__proto__ = b; b.__proto__ = c; c.__proto__ = a; } catch (e: any) { return \"refused:\" + e.name; } return String(a.nope) + Object.keys(a).length; })({}, {}, {})",
     "((a: any, b: any) => { try { Reflect.setPrototypeOf(a, b); Reflect.setPrototypeOf(b, a); } catch (e: any) { return \"refused:\" + e.name; } return String(a.toString === undefined); })({}, {})",
     "((a: any, b: any) => { try { Object.setPrototypeOf(a, b); Object.setPrototypeOf(b, a); } catch (e: any) { return \"refused:\" + e.name; } return a instanceof Array; })({}, {})",
+    "(() => { let n = 0; for (let s = 1; s <= 12; s++) { let t = s + @I; const rnd = () => { t = (Math.abs(t | 0) * 1103515245 + 12345) % 2147483648; return t / 2147483648; }; const a: number[] = \"x\".repeat(20 + s * 3).split(\"\").map((_: any, i: number) => i); a.sort(() => rnd() - 0.5); n += a.length; } return n; })()",
+    "(() => { let n = 0; for (let s = 2; s <= 9; s++) { const a: number[] = \"x\".repeat(19 + s * 5).split(\"\").map((_: any, i: number) => (i * s) % 13); a.sort((x: number, y: number) => ((x * 7 + y * s) % 5) - 2); n += a[0] + a.length; } return n; })()",
+    "(() => { let n = 0; for (let s = 1; s <= 8; s++) { let k = 0; const a: any[] = \"x\".repeat(24 + s * 4).split(\"\").map((_: any, i: number) => ({ v: (i * 11) % (s + 6) })); const b: any[] = a.toSorted((x: any, y: any) => (k++ % (s + 1)) - 1); n += b.length + a.length; } return n; })()",
     "/[/.exec ? 1 : 0", "new RegExp(\"[\" + @S + \"]\").test(@S)", "new RegExp(\"a{\" + @I + \"}\").test(\"aaa\")", "new RegExp(\"\\\\\" + @I).test(@S)", "/(?:)/.test(@S)", "/\\u{1F600}/u.test(@S)", "@S.match(/\\p{L}/gu)",
 ];
 
